@@ -13,7 +13,7 @@
    touches what [carry_object] erases. *)
 From RM Require Import Model.EncSpec Model.EncObjCarry Model.EncPathSpec Proofs.EncFmt Proofs.EncObjectsRT
      Proofs.Enc2Samples Proofs.Enc2SampleShape Proofs.MapLevelFacts Proofs.MapLevelConcrete Proofs.Enc2Slider
-     Proofs.HitObjectLineFacts Proofs.Enc3Framing.
+     Proofs.HitObjectLineFacts Proofs.Enc3Framing Proofs.Enc3Nodes.
 From RM Require Proofs.C14Clauses.
 From RM Require Import Model.DrvEnc Model.HitObjectSpec.
 From RM Require Model.Curve.
@@ -49,7 +49,7 @@ Proof.
 Qed.
 
 (* what is known of a re-read slider (the conclusion of the per-line theorem T02e) *)
-Definition slider_rel (lm : Curve.Libm) (h : HitObject) (s : Slider) (o : HitObject) : Prop :=
+Definition slider_rel (lm : Curve.Libm) (f : bool) (h : HitObject) (s : Slider) (o : HitObject) : Prop :=
   exists c s',
     slider_curve lm s = Done c /\
     h_start o = h_start h /\ h_kind o = KSlider s' /\
@@ -58,11 +58,17 @@ Definition slider_rel (lm : Curve.Libm) (h : HitObject) (s : Slider) (o : HitObj
     sl_repeat_count s' = sl_repeat_count s /\
     length (sl_node_samples s') = Z.to_nat (sl_repeat_count s + 2) /\
     sl_expected_dist s' = reread_len (written_of (sl_expected_dist s) c) /\
-    slider_curve lm s' = Done c.
+    slider_curve lm s' = Done c /\
+    (* ... and exactly (Proofs/Enc3Nodes.v): *)
+    sl_mode s' = sl_mode s /\
+    sl_new_combo s' = f || sl_new_combo s /\
+    sl_combo_offset s' = (if sl_new_combo s then sl_combo_offset s else 0) /\
+    sl_node_samples s' = reread_nodes 0 0 (Z.to_nat (sl_repeat_count s + 2)) 0 (sl_node_samples s) /\
+    h_samples o = convert_sound_type (node_info 0 0 (Some (h_samples h))) (node_sound (Some (h_samples h))).
 
 Definition raw_rel (lm : Curve.Libm) (mode : Z) (f : bool) (h o : HitObject) : Prop :=
   match h_kind h with
-  | KSlider s => slider_rel lm h s o
+  | KSlider s => slider_rel lm f h s o
   | _ => o = reread_f f mode h
   end.
 
@@ -145,11 +151,12 @@ Section Raw.
           split; [reflexivity|]; split; [apply reread_object_f|];
           rewrite reread_object_f, reread_f_spinner; reflexivity.
         destruct Hh as (Hi & c & Hc & Hok & Hsm).
-        destruct (slider_round_trip lm fmt_f64 fmt_f32 fmt_int Hfmt H32 mode h s c l Hk Hi Hc Hok El st
+        destruct (slider_round_trip_full lm fmt_f64 fmt_f32 fmt_int Hfmt H32 mode h s c l Hk Hi Hc Hok El st
                     ltac:(rewrite Hsm; exact Hmode))
-          as (st1 & o & s' & Hp & Ho & Q1 & Q2 & Q3 & Q4 & Q5 & Q6 & Q7 & Q8).
+          as (st1 & o & s' & Hp & Ho & Q1 & Q2 & Q3 & Q4 & Q5 & Q6 & Q7 & Q8 & Q9 & Q10 & Q11 & Q12 & Q13).
         exists st1, o. split; [exact Hp|]. split; [exact Ho|]. split.
-        - exists c, s'. repeat split; assumption.
+        - exists c, s'.
+          exact (conj Hc (conj Q1 (conj Q2 (conj Q3 (conj Q4 (conj Q5 (conj Q6 (conj Q7 (conj Q8 (conj Q9 (conj Q10 (conj Q11 (conj Q12 Q13))))))))))))).
         - unfold is_spinner. rewrite Q2, Hk. reflexivity. }
       destruct Hstep as (st1 & o & Hp & Ho & Hrel & Hsp).
       destruct (fs_after_accepted _ _ _ _ Hp Ho) as (Hfs & Hm1).
@@ -214,7 +221,17 @@ Definition final_rel (lm : Curve.Libm) (h o : HitObject) : Prop :=
         sl_repeat_count s' = sl_repeat_count s /\
         length (sl_node_samples s') = Z.to_nat (sl_repeat_count s + 2) /\
         sl_expected_dist s' = reread_len (written_of (sl_expected_dist s) c) /\
-        slider_curve lm s' = Done c
+        slider_curve lm s' = Done c /\
+        sl_mode s' = sl_mode s /\
+        sl_new_combo s' = sl_new_combo s /\
+        sl_combo_offset s' = (if sl_new_combo s then sl_combo_offset s else 0) /\
+        (* names and banks of the slider's own samples (a decoded slider has no file name of its own:
+           the decoder reads its extras field banks-only) *)
+        (first_file (h_samples h) = None -> carry_samples (h_samples o) = carry_samples (h_samples h)) /\
+        (* names and banks of every node without a file name (a file name on a node: class D31) *)
+        (forall i l, (i < Z.to_nat (sl_repeat_count s + 2))%nat -> nth_error (sl_node_samples s) i = Some l ->
+           samples_image l = true -> first_file l = None ->
+           exists l2, nth_error (sl_node_samples s') i = Some l2 /\ carry_samples l2 = carry_samples l)
   | _ => carry_object o = carry_object h
   end.
 
@@ -230,6 +247,16 @@ Definition finish_hyps (h : HitObject) : Prop :=
 Lemma apply_nodes_length c start dur spans : forall nodes i,
   length (apply_nodes c start dur spans i nodes) = length nodes.
 Proof. induction nodes as [|n r IH]; intros i; [reflexivity|]. cbn [apply_nodes length]. rewrite IH. reflexivity. Qed.
+
+Lemma apply_nodes_nth c start dur spans : forall nodes i j n,
+  nth_error nodes j = Some n ->
+  exists p, nth_error (apply_nodes c start dur spans i nodes) j = Some (map (sp_apply p) n).
+Proof.
+  induction nodes as [|x r IH]; intros i j n H; [destruct j; discriminate|].
+  cbn [apply_nodes]. destruct j as [|j']; cbn [nth_error] in H |- *.
+  - injection H as <-. eexists. reflexivity.
+  - exact (IH (i + 1) j' n H).
+Qed.
 
 Lemma carry_eq o h :
   h_start o = h_start h -> carry_kind (h_kind o) = carry_kind (h_kind h) ->
@@ -267,7 +294,7 @@ Section Finish.
       + rewrite !orb_true_r. reflexivity.
       + rewrite orb_false_r in *. destruct (f || fb); [discriminate|]. replace off with 0 by lia. reflexivity.
     - (* slider *)
-      destruct Hrel as (cv & s' & Hc & Q1 & Q2 & Q3 & Q4 & Q5 & Q6 & Q7 & Q8).
+      destruct Hrel as (cv & s' & Hc & Q1 & Q2 & Q3 & Q4 & Q5 & Q6 & Q7 & Q8 & Q9 & Q10 & Q11 & Q12 & Q13).
       set (s'' := mkSlider (sl_pos s') (sl_new_combo s' || fb) (sl_combo_offset s') (sl_mode s')
                            (sl_control_points s') (sl_expected_dist s') (sl_node_samples s')
                            (sl_repeat_count s') (sl_velocity s')).
@@ -277,11 +304,25 @@ Section Finish.
       destruct (process_object_slider dist2 c sm mode0 (mkHObj (h_start o) (KSlider s'') (h_samples o)) s'' o2 eq_refl Hp) as (dp & d & _ & _ & Ho2).
       cbv zeta in Ho2. cbn [h_start h_samples sl_pos sl_new_combo sl_combo_offset sl_mode sl_control_points
                             sl_expected_dist sl_node_samples sl_repeat_count s''] in Ho2.
-      exists cv. eexists. split; [exact Hc|]. rewrite Ho2. cbn [h_start h_kind].
+      exists cv. eexists. split; [exact Hc|]. rewrite Ho2. cbn [h_start h_kind h_samples].
       split; [exact Q1|]. split; [reflexivity|].
-      cbn [sl_pos sl_control_points sl_repeat_count sl_node_samples sl_expected_dist].
+      cbn [sl_pos sl_control_points sl_repeat_count sl_node_samples sl_expected_dist sl_mode sl_new_combo sl_combo_offset].
       split; [exact Q3|]. split; [exact Q4|]. split; [exact Q5|]. split; [rewrite apply_nodes_length; exact Q6|].
-      split; [exact Q7|]. unfold slider_curve in Q8 |- *. cbn [sl_mode sl_control_points sl_expected_dist]. exact Q8.
+      split; [exact Q7|]. split; [unfold slider_curve in Q8 |- *; cbn [sl_mode sl_control_points sl_expected_dist]; exact Q8|].
+      split; [exact Q9|]. split.
+      { rewrite Q10. destruct (sl_new_combo s); cbn [orb implb] in *; [rewrite !orb_true_r; reflexivity|].
+        rewrite orb_false_r. destruct (f || fb); [discriminate|reflexivity]. }
+      split; [exact Q11|]. split.
+      { intros Hnf. rewrite Q13. exact (proj2 (node_reread_carry _ Hsi Hnf) _). }
+      intros i l Hi Hn Himg Hnf.
+      assert (Hrr : nth_error (sl_node_samples s') i =
+                    Some (convert_sound_type (node_info 0 0 (Some l)) (node_sound (Some l)))).
+      { rewrite Q12, (reread_nodes_nth 0 0 _ _ 0 i Hi). cbn [Nat.add]. rewrite Hn. reflexivity. }
+      destruct (apply_nodes_nth c (h_start o) (D.div (D.mul (D.of_Z (sl_repeat_count s' + 1)) d)
+                  (slider_velocity_of sm match dp with Some p => dp_sv p | None => D.one end
+                     match timing_point_at c (h_start o) with Some p => tp_beat_len p | None => default_beat_len end mode0))
+                  (D.of_Z (sl_repeat_count s' + 1)) _ 0 i _ Hrr) as (p & Hp2).
+      eexists. split; [exact Hp2|]. exact (proj2 (node_reread_carry l Himg Hnf) p).
     - (* spinner *)
       subst o.
       destruct (process_object_non_slider dist2 c sm mode0 (force_new_combo (reread_f f mode h) fb)) as (e & Hp' & _).
